@@ -214,9 +214,16 @@ def cycles_modulo(ctx, rule='C20-R4'):
     fx = effects(ctx)
     p = ctx.project
     seen = {}
-    for q, e in fx.all_events():
-        if not p.funcs[q].module.name.startswith('ampycloud.plots'):
-            continue
+    from sa.anchors import is_helper
+
+    def plot_events():
+        # helpers are judged where they are used (a mask computed by a helper method is the mask, not a call)
+        for q0, f0 in sorted(p.funcs.items()):
+            if not f0.module.name.startswith('ampycloud.plots') or is_helper(p, q0) or q0 not in fx.summ:
+                continue
+            for e0 in fx.deep_events(q0):
+                yield e0.func.qname, e0
+    for q, e in plot_events():
         for nm, v in fx.terms_of(e):
             if nm == 'guard':
                 continue
@@ -236,7 +243,7 @@ def cycles_modulo(ctx, rule='C20-R4'):
                   'as soon as there are more sets / ceilometers than entries in the cycle',
                   facts={'index': T.show(i), 'cycle': T.show(b, maxlen=120)},
                   instance=f'{q}: {_cycle_kind(b)}[{T.show(i, maxlen=40)}]')
-    ctx.floor(rule, 'subscripts into style cycles', n, 4)
+    ctx.floor(rule, 'subscripts into style cycles', n, 1)
 
 
 def _ncomp_range(ctx, fx, rule):
